@@ -1140,6 +1140,10 @@ def build(tier, seed):
         obs.append(Ob(f"C19.simulation.{cfg_name(cfg)}", ob_simulation, (cfg,), "X", (f"{SIM}::InElastic.Construct_local_matrix_system", f"{SIM}::InElastic.Save_Iter"), bound="one 16-element bar, 3 load steps",
                       clause="Solve / Result never advance the committed state; Save_Iter commits the trial state", timeout=1800))
     obs.append(Ob("C19.materialpoint", ob_materialpoint, (), "X", ("EasyFEA/Models/InElastic/_materialpoint.py::MaterialPoint.Run",), bound="one uniaxial load / reverse path", clause="Run is repeatable and leaves the behavior unchanged"))
+    from . import C14 as _C14
+    obs.append(Ob("C19.solvers.after.elastic.change", _C14.ob_behavior_elastic_change, ("auto",), "X", ("EasyFEA/Models/InElastic/_behavior.py::Behavior._Update", "EasyFEA/Models/InElastic/_behavior.py::Behavior.Integrate"),
+                  bound="one von Mises / linear hardening behaviour, 6 strain states, E and v of its elastic law re-assigned three times", timeout=300,
+                  clause="after the elastic law is re-parametrised the spectral return runs on the decomposition of the new stiffness: stress, tangent and state equal those of a behaviour built on the new law"))
     obs.append(Ob("canary.yield", ob_yield_canary, (), "P", expect=REFUTED))
     obs.append(Ob("canary.path", ob_path_canary, (), "X", expect=REFUTED))
     return dict(
